@@ -17,7 +17,7 @@ from sim import core
 from sim.base import Simulator, chunked_drops
 from sim.ref import script_ref as sr
 
-LENS = [1, 2, 20, 32, 33, 74, 75, 76, 77, 255, 256, 257, 519, 520]
+LENS = [1, 2, 20, 32, 33, 74, 75, 76, 77, 127, 128, 254, 255, 256, 257, 300, 511, 512, 513, 519, 520]
 VARINTS = [0, 1, 0xfc, 0xfd, 0xfe, 0xff, 0x100, 0xffff, 0x10000, 0x10001, 0xffffffff, 0x100000000, 0x100000001,
            2 ** 63, 2 ** 64 - 1]
 WIRES_PER_RUN = 120
@@ -46,7 +46,8 @@ def gen_script(rng, big=True):
                 b = rng.choice([0, 78, 79, 0x51, 0x76, 0xa9, 0x87, 0x88, 0xac, 0xae, 0xff])
             cmds.append(b)
         else:
-            n = rng.choice(LENS) if (big and rng.random() < 0.6) else rng.randint(1, 80)
+            x = rng.random()
+            n = rng.choice(LENS) if (big and x < 0.55) else rng.randint(76, 520) if (big and x < 0.65) else rng.randint(1, 80)
             cmds.append({"d": rng.randbytes(n).hex()})
     return cmds
 
